@@ -96,6 +96,35 @@ let gstate_str (g : gstate) : string =
   | GSingleVar k -> Printf.sprintf "SINGLE_VARIABLE_GROUP:%d" (int_of_n k)
   | GNoVar -> "NO_VARIABLE_GROUPS" | GDivZero -> "DIVZERO"
 
+(* order-independent digest of a store table; same definition as in harness.cpp *)
+let digest_line (ds : (((n * n) * n) * fd list) list) (ps : ((n * n) * n list) list) (ids : n list) : string =
+  let s1 = ref 0 and s2 = ref 0 in
+  let add (t : string) =
+    let h1 = ref 7 and h2 = ref 11 in
+    String.iter (fun c ->
+        h1 := (!h1 * 131 + Char.code c) mod 1000000007;
+        h2 := (!h2 * 257 + Char.code c) mod 998244353) t;
+    s1 := (!s1 + !h1) mod 1000000007; s2 := (!s2 + !h2) mod 998244353 in
+  List.iter (fun (((m, p), k), fs) ->
+      add (Printf.sprintf "D:%d:%d:%d:%s" (int_of_n m) (int_of_n p) (int_of_n k) (desc_str fs))) ds;
+  List.iter (fun ((m, p), nm) ->
+      add (Printf.sprintf "P:%d:%d:%s" (int_of_n m) (int_of_n p)
+             (String.concat "" (List.map (fun c -> String.make 1 (Char.chr (int_of_n c))) nm)))) ps;
+  List.iter (fun m -> add (Printf.sprintf "S:%d" (int_of_n m))) ids;
+  Printf.sprintf "ok;ndesc=%d;npids=%d;nstores=%d;dg=%d.%d" (List.length ds) (List.length ps)
+    (List.length ids) !s1 !s2
+
+(* override spec: "none" | entries joined by '+': man/pid/NAME/d0/d1/d2/d3 (di = descriptor text or "~") *)
+let parse_ovr (spec : string) =
+  if spec = "none" then [] else
+    List.map (fun e ->
+        match String.split_on_char '/' e with
+        | [m; p; nm; d0; d1; d2; d3] ->
+          let d x = if x = "~" then None else Some (parse_desc x) in
+          let name = List.init (String.length nm) (fun i -> n_of_int (Char.code nm.[i])) in
+          (((n_of_int (ios m), n_of_int (ios p)), name), [d d0; d d1; d d2; d d3])
+        | _ -> raise Bad_desc) (String.split_on_char '+' spec)
+
 let lookup (man : int) (pid : int) (kind : int) : fd list option =
   let rec go l = match l with
     | [] -> None
@@ -189,17 +218,19 @@ let handle (p : string) : string =
     "h=" ^ String.concat "|" (List.map one (String.split_on_char ',' ops)) ^ ";class=lookup"
   | ["load"; _] ->
     (* every spelling of the data directory loads the same table: the exported one *)
-    let b = Buffer.create 100000 in
-    List.iter (fun (((m, p), k), fs) ->
-        Buffer.add_string b (Printf.sprintf "%d:%d:%d:%s;" (int_of_n m) (int_of_n p) (int_of_n k) (desc_str fs))) all;
-    List.iter (fun ((m, p), nm) ->
-        Buffer.add_string b (Printf.sprintf "%d:%d:%s;" (int_of_n m) (int_of_n p)
-          (String.concat "" (List.map (fun c -> String.make 1 (Char.chr (int_of_n c))) nm)))) pids;
-    let h1 = ref 7 and h2 = ref 11 in
-    String.iter (fun c ->
-        h1 := (!h1 * 131 + Char.code c) mod 1000000007;
-        h2 := (!h2 * 257 + Char.code c) mod 998244353) (Buffer.contents b);
-    Printf.sprintf "ld=ok;ndesc=%d;npids=%d;dg=%d.%d;class=load" (List.length all) (List.length pids) !h1 !h2
+    let ids = List.map (fun ((m, _), _) -> m) store_index_sizes in
+    "ld=" ^ digest_line all pids ids ^ ";class=load"
+  | ["ldo"; _; entry; spec] ->
+    (* shipped files + generated overrides.proto: shipped definitions with the overridden ones replaced *)
+    let ids = List.map (fun ((m, _), _) -> m) store_index_sizes in
+    (match (try Some (parse_ovr spec) with _ -> None) with
+     | None -> "lx=unparsable"
+     | Some os ->
+       "lx=" ^ digest_line (override_descs all os) (override_pids pids os) (override_ids ids os)
+       ^ ";class=loader:" ^ entry ^ ":" ^ (if os = [] then "plain" else "overrides"))
+  | "ldf" :: _ :: entry :: _ :: [nd; np; ns; dg] ->
+    (* one shipped file: the expectation comes from prop.py's independent reading of that file *)
+    Printf.sprintf "lx=ok;ndesc=%s;npids=%s;nstores=%s;dg=%s;class=loader:%s:single-file" nd np ns dg entry
   | ["conc"; _; _] ->
     (* decoding is a function of descriptor and bytes: concurrent decoders cannot disagree with the
        single-threaded answer *)
